@@ -161,6 +161,12 @@ func enumerate(th bool, emit func(*unit)) map[string]any {
 				}
 			}
 		}
+		// a '#' that is not the first character of a line belongs to the phrase
+		hashIn := words([]string{"a", "B", "#", "c"}, 0, 3)
+		for _, ph := range [][]string{{"a#B"}, {"a#"}, {"B#c", "c"}, {"a#c", "B"}, {"c", "a#a"}} {
+			id++
+			emit(pmUnit("direct", id, ph, hashIn, both))
+		}
 		note("pm", "phrases of length 1..3 over {a,B,c} (%d); every ordered list of 1-2 phrases%s = %d lists, each as @pm / @pmFromFile (with comment and blank line) / @pmFromDataset (+ single phrases as @pmf) x every input of length 0..%d over {a,A,b,B,c,x} (%d) x capture off/on",
 			len(phr), map[bool]string{true: " and every 3-subset", false: ""}[th], id, inL, len(inputs))
 
@@ -203,8 +209,10 @@ func enumerate(th bool, emit func(*unit)) map[string]any {
 	// ---- @ipMatch -----------------------------------------------------------
 	ipInputs := []string{"9.255.255.255", "10.0.0.0", "10.0.0.1", "10.0.0.2", "10.0.0.3", "10.0.0.4", "10.0.0.5", "10.0.0.6", "10.0.0.7", "10.0.0.8", "10.0.0.9",
 		"10.0.1.1", "0.0.0.0", "255.255.255.255", "::", "::1", "::2", "::3", "::4", "1::", "0:0:0:0:0:0:0:1", "::a00:1", "::ffff:10.0.0.1",
-		"", "x", "10.0.0", "10.0.0.256", "10.0.0.1/32", "010.0.0.1", "10.0.0.1 ", "::1/128", ":::1"}
-	ipItems := []string{"10.0.0.1", "10.0.0.0/30", "10.0.0.5/30", "10.0.0.2/32", "10.0.0.0/31", " 10.0.0.7", "0.0.0.0/0", "::1", "::/127", "::2/128", "::3/127", " ::4"}
+		"", "x", "10.0.0", "10.0.0.256", "10.0.0.1/32", "010.0.0.1", "10.0.0.1 ", "::1/128", ":::1",
+		"64:ff9b::a00:5", "64:ff9b::10.0.0.5", "64:ff9b::a00:6", "64:ff9b::"}
+	ipItems := []string{"10.0.0.1", "10.0.0.0/30", "10.0.0.5/30", "10.0.0.2/32", "10.0.0.0/31", " 10.0.0.7", "0.0.0.0/0", "::1", "::/127", "::2/128", "::3/127", " ::4",
+		"64:ff9b::10.0.0.5", "::ffff:10.0.0.1"} // IPv6 addresses written with a dotted quad: NAT64 (plain IPv6) and IPv4-mapped
 	{
 		n := 0
 		for _, a := range ipItems {
